@@ -154,6 +154,30 @@ def oracle(ctx):
                     fail = f'WorkingDirectory {wd} != {want!r}'
         if fail:
             res.oracle_failures.append(dict(op=line, input=dict(unit_dir=unitdir, path=r, key=kind), impl_output=core.dec_line(a)[:500], oracle_expectation=fail))
+    # several path-valued entries in one unit — also the *same* source more than once: every occurrence is resolved
+    from props import c02
+    multi, mops = [], []
+    dot = [x for x in rels if x.startswith('.')]
+    for _ in range(160 if ctx.thorough else 50):
+        unitdir = rnd.choice(['/q', '/q/sub dir'])
+        ty = rnd.choice(['container', 'container', 'pod', 'build'])
+        srcs = [rnd.choice(dot) for _ in range(rnd.randint(2, 4))]
+        if rnd.random() < 0.7:
+            srcs[rnd.randrange(1, len(srcs))] = srcs[0]          # a repeated source
+        L = {'container': ['[Container]', 'Image=i'], 'pod': ['[Pod]'], 'build': ['[Build]', 'ImageTag=t', 'File=/f']}[ty]
+        L += [f'Volume={r}:/c{i}' + rnd.choice(['', ':ro']) for i, r in enumerate(srcs)]
+        multi.append((unitdir, ty, srcs, '\n'.join(L) + '\n'))
+        mops.append(f'convert\t0\t0\t{hx(unitdir + "/u." + ty)}\t{hx(multi[-1][3])}')
+    mav = c02.argv(ctx, ctx.impl(mops))
+    for (unitdir, ty, srcs, text), op, av in zip(multi, mops, mav):
+        res.oracle_evals += 1
+        if av is None:
+            continue
+        got = [av[i + 1].split(':')[0] for i in range(len(av) - 1) if av[i] == '-v']
+        want = [ref_clean_abs(unitdir + '/' + r) for r in srcs]
+        if got != want:
+            res.oracle_failures.append(dict(op=op, input=dict(unit_dir=unitdir, unit=text), impl_output=str(av)[:500],
+                                            oracle_expectation=f'every Volume= source is resolved against the unit directory, each time it occurs: -v sources {want}, got {got}'))
     # real files: the unit file, or a directory of its path, is a symbolic link whose target lies elsewhere — resolution is
     # lexical against the directory in the unit's *own* path (where it was found), whatever the file system looks like
     import e2e, os, re as _re, shutil
